@@ -27,3 +27,7 @@ def c01_pos_past_truncated_escape(s, pos) -> bool:
         k -= 1
         cnt += 1
     return k >= 1 and s[k] == "u" and s[k - 1] == "\\"
+
+
+def c13_unchecked_name_site(violation, name) -> bool:
+    return False
